@@ -389,17 +389,20 @@ func explainRegex(u []Series, v *mstView, l *Leaf, got bitset) string {
 	if sre, err := syntax.Parse(l.Val, syntax.Perl); err == nil {
 		cands = append(cands, cand{"anchors-ignored", compile(stripAnchors(sre).String())})
 	}
+	re := compile(l.Val)
+	// separator bytes first: only a pattern/value pair that involves the bytes 0x00-0x02
+	// can tell this reading from the plain one
+	if re != nil && try(func(x string) bool { return re.MatchString(escapeStored(x)) }) {
+		return "matched-on-escaped-bytes"
+	}
 	for _, c := range cands {
 		if c.re != nil && try(c.re.MatchString) {
 			return c.name
 		}
 	}
-	if re := compile(l.Val); re != nil {
+	if re != nil {
 		if re.MatchString("") && try(func(string) bool { return true }) {
 			return "empty-match-as-match-all"
-		}
-		if try(func(x string) bool { return re.MatchString(escapeStored(x)) }) {
-			return "matched-on-escaped-bytes"
 		}
 		for _, c := range cands {
 			if c.re != nil && try(func(x string) bool { return c.re.MatchString(escapeStored(x)) }) {
